@@ -20,6 +20,25 @@ struct St {
 };
 St* S = nullptr;
 
+// A functor with non-trivial move semantics (like a lambda capturing a string / unique_ptr by value): the object that is finally invoked
+// must be the one the caller passed, not a moved-from husk
+struct OwningFn {
+    std::function<void(Tracked&)> body;     // emptied by a move
+    std::shared_ptr<int> token;
+    OwningFn(std::function<void(Tracked&)> b) : body(std::move(b)), token(std::make_shared<int>(1)) {}
+    OwningFn(const OwningFn&) = default;
+    OwningFn(OwningFn&& o) noexcept : body(std::move(o.body)), token(std::move(o.token)) { o.body = nullptr; }
+    OwningFn& operator=(const OwningFn&) = default;
+    OwningFn& operator=(OwningFn&& o) noexcept { body = std::move(o.body); token = std::move(o.token); o.body = nullptr; return *this; }
+    void operator()(Tracked& t) {
+        if (!body || !token) vrt::fail("moved-from-functor", "deferred_guarded invoked a moved-from copy of the submitted function (the modification the caller passed is lost)");
+        body(t);
+    }
+};
+struct OwningFnInt : OwningFn {
+    using OwningFn::OwningFn;
+    int operator()(Tracked& t) { OwningFn::operator()(t); return 4242; }
+};
 template<class M> struct MC;
 template<> struct MC<vstd::mutex> { static constexpr bool timed = false; static constexpr const char* name = "mutex"; };
 template<> struct MC<vstd::timed_mutex> { static constexpr bool timed = true; static constexpr const char* name = "timed_mutex"; };
@@ -76,7 +95,9 @@ vh::Outcome run_def(const vh::Case& c, Prop prop) {
                         s.functor_throws = (kind == 3) || detach_throws;
                         s.call = vrt::now_step();
                         try {
-                            if (kind == 0) d.modify_detach([&body, &s](Tracked& t) { body(s, t); });
+                            if (kind == 0 && (op.a & 2)) d.modify_detach(OwningFn([&body, &s](Tracked& t) { body(s, t); }));      // rvalue functor object with owning state
+                            else if (kind == 2 && (op.a & 2)) { s.fv = d.modify_async(OwningFn([&body, &s](Tracked& t) { body(s, t); })); s.has_fv = true; }
+                            else if (kind == 0) d.modify_detach([&body, &s](Tracked& t) { body(s, t); });
                             else if (kind == 1 || kind == 3) { s.fi = d.modify_async([&body, &s](Tracked& t) -> int { body(s, t); return 1000 + s.exec_idx; }); s.has_fi = true; }
                             else { s.fv = d.modify_async([&body, &s](Tracked& t) { body(s, t); }); s.has_fv = true; }
                         } catch (const UserError&) {
